@@ -73,7 +73,17 @@ func write(namespace string, key string, value any, ttl time.Time) {
 		return
 	}
 
-	cache[namespace].Write(key, &b, ttl)
+	ic, ok := cache[namespace]
+	if !ok {
+		// same as read(): namespaces (eg onPreview events) can be created on demand
+		initNamespace(namespace)
+		ic = cache[namespace]
+	}
+	if ic == nil { // cache disabled
+		return
+	}
+
+	ic.Write(key, &b, ttl)
 }
 
 type trimmedT struct {
